@@ -228,3 +228,37 @@ def load_known():
     if not os.path.exists(p):
         return []
     return json.load(open(p))["findings"]
+
+
+# ---------------------------------------------------------------- the specified Guile reader (extracted from Coq)
+
+def _unhexs(h):
+    return "" if h == "" else "".join(chr(int(x, 16)) for x in h.split("."))
+
+
+def _parse_read(line):
+    """READ <forms> -> python structure in the format of vlib.sexp (('a', text), ('s', value), lists)"""
+    if not line.startswith("READ") or line.startswith("READ-FAIL"):
+        return None
+    toks = line.split(" ")[1:]
+    stack = [[]]
+    for t in toks:
+        while t.startswith("("):
+            stack.append([]); t = t[1:]
+        closes = 0
+        while t.endswith(")"):
+            closes += 1; t = t[:-1]
+        if t.startswith("a:"):
+            stack[-1].append(("a", _unhexs(t[2:])))
+        elif t.startswith("s:"):
+            stack[-1].append(("s", _unhexs(t[2:])))
+        for _ in range(closes):
+            l = stack.pop(); stack[-1].append(l)
+    return stack[0]
+
+
+def coq_read_all(texts, driver_exe=None):
+    """reads program texts with the reader of Spec/GuileReader.v (the one the C04 theorems are about)"""
+    driver_exe = driver_exe or os.path.join(OCAML, "driver")
+    outs = run_lines(driver_exe, ["RD " + hx(t) for t in texts], shards=4)
+    return [_parse_read(o) for o in outs]
